@@ -382,3 +382,59 @@ Example C04_ex_surface_both_directions :
   (let '(g', raised) := insert_knot_surf Qops 0%Q true g [Some (1#2)%Q; Some (1#3)%Q] [1%Z; 3%Z] in
      raised = true /\ s_su g' = 5%nat /\ s_sv g' = 3%nat /\ s_Uv g' = s_Uv g).
 Proof. vm_compute. repeat split. Qed.
+
+(* ====================== TRANSLATOR TIE (Proofs/GenTie*.v) ======================
+   coq/Gen/*.v is the Gallina rendering of the Python source produced by harness/pytrans.py; every run of ./check regenerates it
+   from /repo and compares it function by function with the committed text (evidence: translator_tie).  The theorems below say
+   that the hand-written model (the subject of the theorems above) computes, for ALL inputs satisfying the stated
+   well-formedness, exactly what the translated source computes.  This block stays LAST in the file: its imports shadow
+   model names. *)
+From Coq Require Import List QArith Reals Qreals Lia Lra Arith Bool ZArith.
+From NV Require Import Scalar.Ops Model.Common Model.Basis Model.Knots Model.KnotIns Model.KnotRem Model.LinAlg Model.Degree
+  Gen.Prelude Gen.LinalgInternal Gen.Linalg Gen.Knotvector Gen.Helpers
+  Proofs.GenTieSums Proofs.GenTieLinAlg Proofs.GenTieSubst Proofs.GenTieLU Proofs.GenTieLUSolve Proofs.GenTieKnotRem Proofs.GenTieDegree
+  Proofs.GenTieLib Proofs.GenTieKnots Proofs.GenTieSpan Proofs.GenTieBasis Proofs.GenTieBasisOne
+  Proofs.GenTieDersOne Proofs.GenTieDersLib Proofs.GenTieDers Proofs.GenTieKnotIns.
+Local Open Scope nat_scope.
+
+
+(* [G] helpers.knot_insertion_kv; wf: span < len(knotvector) *)
+Theorem C04_gen_knot_insertion_kv_R : forall (U : list R) (u : R) (span r : nat),
+  span < length U ->
+  Helpers.knot_insertion_kv Rops U u (Z.of_nat span) (Z.of_nat r) = GOk (KnotIns.knot_insertion_kv U u span r).
+Proof. exact knot_insertion_kv_tie_R. Qed.
+Print Assumptions C04_gen_knot_insertion_kv_R.
+Theorem C04_gen_knot_insertion_kv_Q : forall (U : list Q) (u : Q) (span r : nat),
+  span < length U ->
+  Helpers.knot_insertion_kv Qops U u (Z.of_nat span) (Z.of_nat r) = GOk (KnotIns.knot_insertion_kv U u span r).
+Proof. exact knot_insertion_kv_tie_Q. Qed.
+Print Assumptions C04_gen_knot_insertion_kv_Q.
+
+(* [G] helpers.knot_insertion (control points = lists of floats), keywords num, s, span given explicitly.
+   wf: degree <= span, s + num <= degree (the callers' guard), span - s < len(ctrlpts), span + degree < len(knotvector) + s,
+   every point non-empty (isinstance(temp[i][0], float) is evaluated), len(ctrlpts) <= len(knotvector) (the default expression
+   find_span_linear(degree, knotvector, len(ctrlpts), u) of the `span` keyword is evaluated even when span is given) *)
+Theorem C04_gen_knot_insertion_R : forall (p : nat) (U : list R) (P : list (list R)) (u : R) (num s k : nat),
+  p <= k -> s + num <= p -> k - s < length P -> length P <= length U -> k + p < length U + s ->
+  Forall (fun pt => pt <> []) P ->
+  Helpers.knot_insertion Rops (Z.of_nat p) U P u (Z.of_nat num) (Z.of_nat s) (Z.of_nat k) =
+  GOk (KnotIns.knot_insertion Rops p U P u num s k).
+Proof. exact knot_insertion_tie_R. Qed.
+Print Assumptions C04_gen_knot_insertion_R.
+Theorem C04_gen_knot_insertion_Q : forall (p : nat) (U : list Q) (P : list (list Q)) (u : Q) (num s k : nat),
+  p <= k -> s + num <= p -> k - s < length P -> length P <= length U -> k + p < length U + s ->
+  Forall (fun pt => pt <> []) P ->
+  Helpers.knot_insertion Qops (Z.of_nat p) U P u (Z.of_nat num) (Z.of_nat s) (Z.of_nat k) =
+  GOk (KnotIns.knot_insertion Qops p U P u num s k).
+Proof. exact knot_insertion_tie_Q. Qed.
+Print Assumptions C04_gen_knot_insertion_Q.
+
+Example C04_gen_nonvacuous :
+  let U := [0; 0; 0; 0; 1#4; 1#2; 1#2; 3#4; 1; 1; 1; 1]%Q in
+  let P := [[0; 0]; [1; 2]; [2; 3]; [3; 3]; [4; 1]; [5; 0]; [6; 2]; [7; 3]]%Q in
+  (3 <= 4 /\ 0 + 2 <= 3 /\ 4 - 0 < length P /\ length P <= length U /\ 4 + 3 < length U + 0)
+  /\ Helpers.knot_insertion Qops 3 U P (3#10)%Q 2 0 4 =
+     GOk [[0; 0]; [1; 2]; [8#5; 13#5]; [11#5; 71#25]; [27#10; 74#25]; [31#10; 14#5]; [4; 1]; [5; 0]; [6; 2]; [7; 3]]%Q
+  /\ Helpers.knot_insertion_kv Qops U (3#10)%Q 4 2 = GOk [0; 0; 0; 0; 1#4; 3#10; 3#10; 1#2; 1#2; 3#4; 1; 1; 1; 1]%Q.
+Proof. cbv zeta. repeat split; try (vm_compute; reflexivity); simpl; lia. Qed.
+
